@@ -98,6 +98,10 @@ def case_strategy(draw: Any) -> Dict[str, Any]:
         "ws_upgrade": draw(st.sampled_from(["websocket", "WebSocket", "WEBSOCKET"])),
         # header names reach the protocol-selection code as the client spelt them
         "raw_headers": draw(st.booleans()),
+        # ordinary keep-alive requests served on the connection before the opening: an upgrade
+        # may come as the n-th request of a connection, not only as its first
+        "prior": draw(st.sampled_from([0, 0, 0, 1, 2])) if kind in ("h2c", "h2c_body", "ws",
+                                                                    "plain") else 0,
     }
     if kind == "h2c":
         case["first"]["body_len"] = 0
@@ -150,6 +154,10 @@ def build(case: Dict[str, Any]) -> Dict[str, Any]:
                                     upgrade=case.get("ws_upgrade", "websocket"))
         rest = b"".join(message_frames("text", case["ws_msg"].encode("utf-8"), []))
         out.update({"opening": opening, "rest": rest, "proto": "ws", "requests": [first]})
+    pr = [{"path": f"/p{j}", "body_len": [0, 9][j % 2], "seed": 40 + j}
+          for j in range(case.get("prior", 0))]
+    out["prior_requests"] = pr
+    out["opening"] = b"".join(h1_request_bytes(r) for r in pr) + out["opening"]
     return out
 
 
@@ -188,6 +196,23 @@ def observe(case: Dict[str, Any], obs: Any) -> Dict[str, Any]:
     insts = [{"type": i.scope.get("type"), "http_version": i.scope.get("http_version"),
               "path": i.scope.get("path"), "body": i.body()} for i in obs.instances]
     data = conn.received_before_eof()
+    # ---- the ordinary requests served before the opening (HTTP/1.1, in order, answered)
+    pr = b.get("prior_requests", [])
+    if pr:
+        resps0, _, err0 = parse_responses(data, ["GET"] * len(pr), conn.server_gone)
+        got = [(i["type"], i["http_version"], i["path"], i["body"]) for i in insts[:len(pr)]]
+        want0 = [("http", "1.1", r["path"], make_body(r["body_len"], r["seed"])) for r in pr]
+        if got != want0:
+            raise Violation("prior_request_not_served", f"{_short(got)}", backend=be)
+        for r, resp in zip(pr, resps0[:len(pr)]):
+            wb = r["path"].encode() + b"|" + make_body(r["body_len"], r["seed"])
+            if err0 or resp.status != 200 or resp.body != wb or not resp.complete:
+                raise Violation("prior_response_wrong", f"{r['path']}: {resp.to_json()} {err0}",
+                                backend=be)
+        if len(resps0) < len(pr):
+            raise Violation("prior_response_wrong", f"{len(resps0)} of {len(pr)}", backend=be)
+        insts = insts[len(pr):]
+        data = data[resps0[len(pr) - 1].end:]
     responses: Dict[str, Any] = {}
     want_version = {"h1": "1.1", "h2": "2", "h2c": "2", "ws": "1.1"}[proto]
     if proto == "h1":
@@ -269,7 +294,8 @@ def run_case(case: Dict[str, Any]) -> CaseInfo:
     programs = {"*": [["echo"]]}
     if case["kind"] == "ws":
         programs = {"*": [["recv"], ["send", {"type": "websocket.accept"}],
-                          ["ws_loop", {"echo": True}]]}
+                          ["ws_loop", {"echo": True}]],
+                    "/p0": [["echo"]], "/p1": [["echo"]]}
     unsplit = {"mode": "one", "between": "settle"}
     for be in BACKENDS:
         ref = None
